@@ -93,3 +93,36 @@ func (f *fakeManager) RegisterXDSUpdateHandler(rt xdsresource.ResourceType, h xd
 	defer f.mu.Unlock()
 	f.handlers[rt] = append(f.handlers[rt], h)
 }
+
+// snapshot / clear / fire: state-of-the-world pushes on the fake manager (update handlers registered by the code under
+// test are run with the map of the resources of the type that exist, errors excluded)
+func (f *fakeManager) snapshot(rt xdsresource.ResourceType) map[string]getResult {
+	f.mu.Lock()
+	defer f.mu.Unlock()
+	out := map[string]getResult{}
+	for k, v := range f.res[rt] {
+		out[k] = v
+	}
+	return out
+}
+
+func (f *fakeManager) clear(rt xdsresource.ResourceType) {
+	f.mu.Lock()
+	defer f.mu.Unlock()
+	delete(f.res, rt)
+}
+
+func (f *fakeManager) fire(rt xdsresource.ResourceType) {
+	f.mu.Lock()
+	view := map[string]xdsresource.Resource{}
+	for k, v := range f.res[rt] {
+		if r, ok := v.val.(xdsresource.Resource); ok && v.err == nil && r != nil {
+			view[k] = r
+		}
+	}
+	hs := append([]xdsresource.XDSUpdateHandler(nil), f.handlers[rt]...)
+	f.mu.Unlock()
+	for _, h := range hs {
+		h(view)
+	}
+}
